@@ -304,9 +304,15 @@ def rule_send_sync_bounds(ctx):
                               "parallel iterator over the item vector without T: Send + Sync")
 
 
+def rule_send_sync_witness(ctx):
+    import witness
+    witness.rule(ctx, ("C09",), "item data or the notify callback could be shared with the worker pool without being Send + Sync")
+
+
 def rules(ctx):
     ctx.run_rule("C09.order-table", rule_order_table)
     ctx.run_rule("C09.matchers-confined", rule_matchers_confined)
     ctx.run_rule("C09.guard-moved", rule_guard_moved)
     ctx.run_rule("C09.unsafe-impls", rule_unsafe_impls)
     ctx.run_rule("C09.send-sync-bounds", rule_send_sync_bounds)
+    ctx.run_rule("C09.send-sync-witness", rule_send_sync_witness)
